@@ -421,6 +421,11 @@ class World:
         final = base if subdir == 'new' else base + ':2,' + info
         self.fs.os.rename(tmp, os.path.join(folder, subdir, final))
         self.log('deliver', name, mailbox, subdir, final)
+        if not hasattr(self, 'deliveries'):
+            self.deliveries = []
+        self.deliveries.append({'seq': self.seq, 'mailbox': mailbox,
+                                'subdir': subdir, 'file': final,
+                                'data': data})
         return True
 
     # ---- teardown -----------------------------------------------------------
